@@ -8,6 +8,8 @@ import OH.Props.TablesC05
 #print axioms OH.Props.C05.C05_day_offset_denotes
 #print axioms OH.Props.C05.C05_accepted_fields_in_range
 #print axioms OH.Props.C05.C05_empty_rejected
+#print axioms OH.Props.C05.C05_every_sentence_parses_to_its_denotation
+#print axioms OH.Props.C05.C05_every_sentence_parses_string
 #print axioms OH.Props.TablesC05.C05_separator_arms
 #print axioms OH.Props.TablesC05.C05_modifier_arms
 #print axioms OH.Props.TablesC05.C05_event_arms
